@@ -130,6 +130,21 @@ Definition unsafe_builders : list (str * str) :=
                                           | None => [] end) (builder_names c))) classes).
 Definition n_builder_instances : nat := length (flat (map builder_names classes)).
 
+(* A helper object returned by a @builder method (Joiner: it holds the fresh copy made by join() in .query) completes the call
+   by invoking a method on that copy (do_join): the callee must pass the same frame check, on every class that has it. *)
+Definition continuation_names : list str :=
+  flat (map (fun c =>
+    if seqb (c_name c) (L "Joiner") then
+      flat (map (fun m => flat (map (fun e => match e with
+                                               | ECallOn RSelf [a] n => if seqb a (L "query") then [n] else []
+                                               | _ => [] end) (m_effects m))) (c_methods c))
+    else []) classes).
+Definition continuations_ok : bool :=
+  let mn := mut_names in
+  let ns := continuation_names in
+  negb (match ns with [] => true | _ => false end) &&
+  forallb (fun c => forallb (fun n => match resolve c n with Some m => builder_ok mn c m | None => true end) ns) classes.
+
 (* ---------------- C02: render methods ---------------- *)
 Fixpoint has_suffix (suf s : str) : bool :=
   if seqb suf s then true else match s with [] => false | _ :: r => has_suffix suf r end.
